@@ -41,7 +41,46 @@ fn expect_class(ctx: &mut Ctx, what: &str, cause: &str, code: Option<i16>, want_
     }
 }
 
+/// Value faults on the response side: a value the library cannot send (a string with bytes outside ASCII, a block longer than
+/// the nine length digits of a definite-length header can announce) is a fault of the value - execution-error class - not of
+/// the controller's syntax. The gigabyte payload is zero pages that are never touched (the refusal comes from its length).
+fn response_value_faults(cfg: &Cfg, rep: &mut Report) {
+    if cfg.tiny {
+        return;
+    }
+    run_cases(cfg, "response-value-faults", 4, rep, |_rng, ctx| {
+        use scpi::parser::format::Arbitrary;
+        use scpi::parser::response::ResponseData;
+        static BIG: std::sync::OnceLock<Vec<u8>> = std::sync::OnceLock::new();
+        let mut out: Vec<u8> = Vec::new();
+        match ctx.index {
+            0 | 1 => {
+                let big = BIG.get_or_init(|| vec![0u8; 1_000_000_123]);
+                let n = if ctx.index == 0 { 1_000_000_000 } else { big.len() };
+                let r = Arbitrary(&big[..n]).format_response_data(&mut out);
+                expect_class(ctx, &format!("block response of {} bytes", n), "response.block-longer-than-nine-length-digits", r.err().map(|e| e.get_code()), false);
+                // and through &str (sent as a block)
+                if let Ok(s) = std::str::from_utf8(&big[..n]) {
+                    let mut out2: Vec<u8> = Vec::new();
+                    let r = s.format_response_data(&mut out2);
+                    expect_class(ctx, &format!("&str response of {} bytes", n), "response.block-longer-than-nine-length-digits", r.err().map(|e| e.get_code()), false);
+                }
+            }
+            2 => {
+                let r = (&b"caf\xe9"[..]).format_response_data(&mut out);
+                expect_class(ctx, "string response with a byte outside ASCII", "response.string-not-ascii", r.err().map(|e| e.get_code()), false);
+            }
+            _ => {
+                let r = scpi::parser::format::Character(b"").format_response_data(&mut out);
+                // (an empty character datum is sent as an empty field: no fault) - counted, not judged
+                ctx.count(if r.is_ok() { "response.empty-character-datum.ok" } else { "response.empty-character-datum.err" });
+            }
+        }
+    });
+}
+
 pub fn run(cfg: &Cfg, rep: &mut Report) {
+    response_value_faults(cfg, rep);
     // ---- exhaustive over all i16
     let before = rep.counters.get("stage.all-codes.truncated").copied();
     run_cases(cfg, "all-codes", 64, rep, |_rng, ctx| {
